@@ -14,7 +14,7 @@ LIB_TUS = ['SparseGrids/' + s + '.cpp' for s in (
     'TasmanianSparseGrid tsgAcceleratedDataStructures tsgCoreOneDimensional tsgDConstructGridGlobal '
     'tsgGridGlobal tsgGridWavelet tsgHardCodedTabulatedRules tsgGridLocalPolynomial tsgGridSequence tsgGridFourier '
     'tsgIndexManipulator tsgHierarchyManipulator tsgIndexSets tsgLinearSolvers tsgRuleWavelet tsgSequenceOptimizer').split()] + [
-    'InterfaceTPL/tsgGpuNull.cpp', 'DREAM/tsgDreamState.cpp', 'DREAM/tsgDreamLikelyGaussian.cpp',
+    'InterfaceTPL/tsgGpuNull.cpp', 'DREAM/tsgDreamState.cpp', 'DREAM/tsgDreamLikelyGaussian.cpp', 'DREAM/tsgDreamSampleWrapC.cpp',
     'DREAM/Optimization/tsgGradientDescent.cpp', 'DREAM/Optimization/tsgParticleSwarm.cpp']
 SRC_DIRS = ['SparseGrids', 'DREAM', 'DREAM/Optimization', 'Addons', 'InterfaceTPL', 'Config']
 
@@ -127,7 +127,7 @@ def ensure_lib():
     """instrumented + plain static libraries of the sparse-grid, DREAM and optimisation sources"""
     ensure_engines()
     flags = cxxflags()
-    key = file_hash(repo_sources() + [os.path.join(ENG, 'fpsym', 'instr.cpp')], flags)
+    key = file_hash(repo_sources() + [os.path.join(ENG, 'fpsym', 'instr.cpp')], flags + ' ' + ' '.join(LIB_TUS))
     d = os.path.join(BUILD, 'lib-' + key)
     with Lock('lib'):
         if os.path.exists(os.path.join(d, 'ok')):
